@@ -8,7 +8,7 @@
    is; fixed = false the variant with the chain cycle check before the block (before fbfd646).
    Statements only; proofs in Proofs/ConcProofs*.v. *)
 From Coq Require Import NArith List Bool.
-From V Require Import Model.Conc Proofs.ConcProofs Proofs.ConcProofsB Proofs.ConcProofsC.
+From V Require Import Model.Conc Model.ConcEnum Proofs.ConcProofs Proofs.ConcProofsB Proofs.ConcProofsC Proofs.ConcProofsD Proofs.ConcProofsE.
 Import ListNotations.
 Open Scope N_scope.
 
@@ -158,6 +158,46 @@ Theorem remove_runs_put_race_refuted :
                 map outs cs = [[Err ESqlIntegrity]; [OkU]] /\ all_readable g = true /\ length (dsets g) = 2%nat.
 Proof. exact removerun_put_race_refuted_p. Qed.
 Print Assumptions remove_runs_put_race_refuted.
+
+(* ---- 5. completeness of the list of mechanisms (finite domains, EVERY interleaving explored by vm_compute) *)
+
+(* 40 x 40 pairs of programs over registration / removal / put / associate / prune / removeRuns / emptyTrash / chain edits /
+   dataset-type registration on shared names (Proofs/ConcProofsD.v `alphabet`), two clients, every interleaving of their
+   steps: a result (outcomes + what a fresh Butler sees) that no serial order produces is explained by one of five
+   mechanisms -- two collection types registered for one name; registerRun with a removal between its blocks; put into a run
+   whose registerRun is between its blocks; removeRuns with a put after its query; emptyTrash against a put on one path
+   (the only one that leaves a visible dataset unreadable).  Each is a known finding with its own signature. *)
+Theorem two_clients_nonserial_classes_complete : all_explained wslots world all_pairs = true.
+Proof. exact two_clients_nonserial_classes_complete_p. Qed.
+Print Assumptions two_clients_nonserial_classes_complete.
+
+(* the same for THREE clients over the five programs on one fresh name (125 triples) *)
+Theorem three_clients_nonserial_classes_complete : all_explained wslots world all_triples = true.
+Proof. exact three_clients_nonserial_classes_complete_p. Qed.
+Print Assumptions three_clients_nonserial_classes_complete.
+
+(* every one of the five mechanisms does occur in the model *)
+Theorem mechanisms_occur :
+  nonserial wslots world [[RegRun 4]; [RegColl 4 CTagged]] <> [] /\
+  nonserial wslots world [[RegRun 4]; [RmColl 4]] <> [] /\
+  nonserial wslots world [[RegRun 4]; [Put 4 1 52]] <> [] /\
+  nonserial wslots world [[RemoveRun 3]; [Put 3 2 9]] <> [] /\
+  nonserial wslots world [[Prune [RKey 3 0]]; [Put 3 0 9]] <> [].
+Proof. exact mechanisms_occur_p. Qed.
+Print Assumptions mechanisms_occur.
+
+(* ---- 6. the dimension-group key (first dataset type over a set of dimensions new to the repository) *)
+
+(* _DimensionGroupStorage.save as it is -- lock, THEN re-read, then insert: any clients, EVERY schedule: one key per group *)
+Theorem dimension_group_key_unique : forall sched t cs, dg_unique t -> dg_unique (fst (dg_run true t cs sched)).
+Proof. exact dimension_group_key_unique_p. Qed.
+Print Assumptions dimension_group_key_unique.
+
+(* re-read BEFORE the lock: refresh, refresh, insert, insert allocates two keys for one group *)
+Theorem dimension_group_key_refuted_without_locked_reread :
+  exists sched, fst (dg_run false [] [mkDG 7 None false; mkDG 7 None false] sched) = [(0, 7); (1, 7)].
+Proof. exact dimension_group_key_refuted_without_locked_reread_p. Qed.
+Print Assumptions dimension_group_key_refuted_without_locked_reread.
 
 (* ---- non-vacuity *)
 Example closed_programs_exist :
